@@ -14,10 +14,10 @@ UNIT = {
     'vec_types': {'vec_node': 'struct BuildNode *'},
     'struct_extra': {'BuildNode': '  size_t g_idx;\n', 'FileSystem': ''},
     'need_fields': {'BuildValue': ['kind', 'numOutputInfos']},
-    'no_translate': ['getFileInfo', 'getLinkInfo', 'getOutputInfo', 'getFileSystem', 'BuildNode::getFileInfo', 'getActualOutputPath', 'isDirectory'],
+    'no_translate': ['BuildNode::getLinkInfo', 'getFileInfo', 'getLinkInfo', 'getOutputInfo', 'getFileSystem', 'BuildNode::getFileInfo', 'getActualOutputPath', 'isDirectory'],
     'calls': {
         'm:@vec_node::size': 'vec_node_size', 'm:@vec_node::empty': 'vec_node_empty', 'o:[]:@vec_node': '$o->ptr[$0]',
-        'm:BuildValue::getOutputInfo': 'tv_stored_info', 'm:BuildNode::getFileInfo': 'tv_current_info', 'm:FileSystem::getLinkInfo': 'tv_link_info',
+        'm:BuildValue::getOutputInfo': 'tv_stored_info', 'm:BuildNode::getFileInfo': 'tv_current_info', 'm:FileSystem::getLinkInfo': 'tv_link_info', 'm:BuildNode::getLinkInfo': 'tv_node_link_info',
         'm:@struct FileInfo::isMissing': '($o->missing != 0)', 'm:@struct FileInfo::isDirectory': '($o->is_dir != 0)', 'o:==:@struct FileInfo': 'tv_info_eq', 'm:BuildSystem::getFileSystem': 'tv_fs',
         'm:SymlinkCommand::getActualOutputPath': 'tv_actual_path', 'm:@strref::empty': '($o->len == 0)', 'm:StringRef::empty': '($o->len == 0)',
     },
@@ -29,6 +29,7 @@ UNIT = {
     'after_structs': ('static inline struct FileInfo *tv_stored_info(const struct BuildValue *v) { return &g_stored0; }\n'
                       'static inline struct FileInfo tv_current_info(const struct BuildNode *n, struct FileSystem *fs) { g_file_queries++; return g_current0; }\n'
                       'static inline struct FileInfo tv_link_info(struct FileSystem *fs, strref path) { g_link_queries++; g_link_path = path.ptr; return g_link0; }\n'
+                      '/* BuildNode::getLinkInfo: the link status of the path the NODE is named after */\nstatic inline struct FileInfo tv_node_link_info(const struct BuildNode *n, struct FileSystem *fs) { g_link_queries++; g_link_path = (const char *)n; return g_link0; }\n'
                       'static inline _Bool tv_info_eq(const struct FileInfo *a, struct FileInfo b) { return a->id == b.id && (a->missing != 0) == (b.missing != 0); }\n'
                       'static inline struct FileSystem *tv_fs(struct BuildSystem *s) { static struct FileSystem f; return &f; }\n'
                       'static inline strref tv_actual_path(void *self) { return g_actual_path; }\n'
